@@ -28,9 +28,13 @@ const BOUND: &str = "all ids 0 .. 4_000_000";
 pub fn search() -> Outcome {
     let mut seen = HashSet::new();
     let mut n = 0u64;
+    std::panic::set_hook(Box::new(|_| {}));
     for id in 0..4_000_000usize {
         n += 1;
-        let name = h::get_var_name(id);
+        let name = match std::panic::catch_unwind(|| h::get_var_name(id)) {
+            Ok(x) => x,
+            Err(_) => return Outcome { found: true, input: id.to_string(), observed: "panic".into(), expected: "a name (the generator is total)".into(), evaluations: n, bound: BOUND.into() },
+        };
         if let Some(want) = bad(id, &name) {
             return Outcome { found: true, input: id.to_string(), observed: name, expected: want, evaluations: n, bound: BOUND.into() };
         }
@@ -42,7 +46,11 @@ pub fn search() -> Outcome {
 }
 pub fn run(input: &str) -> Outcome {
     let id: usize = input.parse().unwrap();
-    let name = h::get_var_name(id);
+    std::panic::set_hook(Box::new(|_| {}));
+    let name = match std::panic::catch_unwind(|| h::get_var_name(id)) {
+        Ok(x) => x,
+        Err(_) => return Outcome { found: true, input: input.into(), observed: "panic".into(), expected: "a name (the generator is total)".into(), evaluations: 1, bound: "single input".into() },
+    };
     match bad(id, &name) {
         Some(want) => Outcome { found: true, input: input.into(), observed: name, expected: want, evaluations: 1, bound: "single input".into() },
         None => Outcome { found: false, input: input.into(), observed: name, expected: String::new(), evaluations: 1, bound: "single input".into() },
